@@ -20,7 +20,8 @@ PARTIAL = [
     "completeness, p <= 2n) are mathematical facts that are not proved here (they are proved for the toy curve p=43); "
     "the production networks are covered by direct checks only",
     "RFC 6979 nonce generation is outside the model (the nonce is an input); C01 covers it",
-    "network.parse.address (address text -> hash160) is outside the model (C08/C18); keys are modelled as public pair / hash160 / unparseable",
+    "network.parse.address (address text -> kind + hash160) is outside the model (C08/C18); keys are modelled as public pair / "
+    "hash160-carrying object / parsed address (kind, hash160) / unparseable",
     "armoured form: Model/MsgArmour.v models str.replace/split/re.split/strip/lower by hand on code-point lists (the regular "
     "expression is replaced by an equivalent hand-written matcher); the three round-trip theorems are proved for that model and "
     "tied to the code by correspondence on ~9000 generated armoured and malformed texts; their domain excludes every message "
@@ -52,14 +53,40 @@ TOYS = [(p, a, b) + _first_point(p, a, b) + (n,) for p, a, b, n in _SMALL] + [
 TOYS[2] = (43, 0, 7, 2, 12, 31)      # the curve of Proofs/MsgInstP.v with its generator
 
 
-class _NoParse:
+class ToyContract:
+    """what network.parse.address returns: info() with a "type", hash160()"""
+    def __init__(self, typ, h):
+        self._info = {"hash160": h}
+        if typ is not None:
+            self._info["type"] = typ
+
+    def info(self):
+        return self._info
+
+    def hash160(self):
+        return self._info.get("hash160")
+
+
+class _ToyParse:
+    """address texts of the toy network: 'toy:<type or ->:<hex of the hash160 or ->'; anything else does not parse"""
     def address(self, s):
-        return None
+        parts = s.split(":")
+        if len(parts) != 3 or parts[0] != "toy":
+            return None
+        return ToyContract(None if parts[1] == "-" else parts[1], None if parts[2] == "-" else bytes.fromhex(parts[2]))
 
 
 class ToyNet:
     network_name = "Toycoin"
-    parse = _NoParse()
+    parse = _ToyParse()
+
+
+def toy_addr(typ, h):
+    return "toy:%s:%s" % ("-" if typ is None else typ, "-" if h is None else h.hex())
+
+
+def kind_token(typ):
+    return typ if typ in ("p2pkh", "p2pkh_wit") else "other"
 
 
 class PairKey:
@@ -226,6 +253,10 @@ def _key_tokens(kind, val):
         return "H " + arg(val), HashKey(val)
     if kind == "HN":
         return "HN", HashKey(None)
+    if kind == "A":                      # val = (type string or None, hash160 or None): goes through parse.address
+        typ, h = val
+        tok = ("AN " + kind_token(typ)) if h is None else ("A %s %s" % (kind_token(typ), arg(h)))
+        return tok, toy_addr(typ, h)
     return "U", "not an address"
 
 
@@ -321,7 +352,10 @@ def model_cases(rng, tier):
             other = pt_canon(((d % (n - 1)) + 1) * g)
             h_ok = ORACLES["hash160"](public_pair_to_sec(Q, compressed=c))
             h_flip = ORACLES["hash160"](public_pair_to_sec(Q, compressed=not c))
-            for kind, val in (("P", Q), ("P", other), ("H", h_ok), ("H", h_flip), ("HN", None), ("U", None)):
+            for kind, val in (("P", Q), ("P", other), ("H", h_ok), ("H", h_flip), ("HN", None), ("U", None),
+                              ("A", ("p2pkh", h_ok)), ("A", ("p2pkh_wit", h_ok)), ("A", ("p2pkh", h_flip)), ("A", ("p2sh", h_ok)),
+                              ("A", ("p2sh_wit", h_ok)), ("A", ("p2tr", None)), ("A", (None, h_ok)), ("A", ("p2pkh", None)),
+                              ("A", ("P2PKH", h_ok))):
                 tok, key = _key_tokens(kind, val)
                 for zz in (z, z + 1):
                     yield Case("verify %s %s %s %s N %s" % (cva, tok, T(t), T("Toycoin"), arg(zz)),
@@ -582,16 +616,28 @@ def chk_first_byte(sym, d, first):
 
 
 def chk_address_kind(sym, d):
-    """an address of another kind (P2SH) carrying the same 20 bytes is another address"""
+    """only an address that refers to a key can verify: the P2SH / P2WSH / P2TR addresses built from the signer's own
+    hash bytes are other addresses (False); its P2PKH and P2WPKH addresses verify"""
     nw = net(sym)
     k = _key(nw, d, True)
     sig = nw.msg.sign(k, "kind")
-    a = nw.address.for_p2sh(k.hash160())
-    try:
-        if nw.msg.verify(a, sig, "kind") is not False:
-            return {"kind": "other-address-kind-accepted", "addr": a}
-    except Exception as e:
-        return {"kind": "verify-raises", "detail": "%s: %s" % (type(e).__name__, e)}
+    h = k.hash160()
+    cands = [("p2sh", lambda: nw.address.for_p2sh(h), False), ("p2sh_wit", lambda: nw.address.for_p2sh_wit(h + h[:12]), False),
+             ("p2tr", lambda: nw.address.for_p2tr(h + h[:12]), False), ("p2pkh", lambda: nw.address.for_p2pkh(h), True),
+             ("p2pkh_wit", lambda: nw.address.for_p2pkh_wit(h), True)]
+    for name, mk, want in cands:
+        try:
+            a = mk()
+        except Exception:
+            a = None
+        if not isinstance(a, str):
+            continue                      # the network has no such address form
+        try:
+            got = nw.msg.verify(a, sig, "kind")
+        except Exception as e:
+            return {"kind": "verify-raises", "detail": "%s: %s" % (type(e).__name__, e), "addr": a}
+        if got is not want:
+            return {"kind": "other-address-kind-accepted" if got else "key-address-rejected", "addr": a, "form": name}
     return None
 
 
@@ -756,7 +802,7 @@ def prop_cases(rng, tier):
     for first in list(range(20, 44)) + [0, 255]:
         yield PropCase("first_byte", {"net": "BTC", "d": "31337", "first": first}, (lambda first=first: chk_first_byte("BTC", 31337, first)))
     # 4. address kinds
-    for sym in ("BTC", "LTC"):
+    for sym in [nw.symbol for nw in usable_networks()]:
         yield PropCase("address_kind", {"net": sym, "d": "12345"}, (lambda sym=sym: chk_address_kind(sym, 12345)))
     # 5. armoured form
     for pc in ARM.prop_cases(rng, tier, usable_networks, msgs):
@@ -796,14 +842,10 @@ def replay_input(check, inp):
 
 
 def classify(pc, r):
-    if pc.name == "address_kind" and r.get("kind") == "other-address-kind-accepted":
-        return "address-kind-ignored"
     return ARM.classify(pc, r)
 
 
-KNOWN_REPLAYS = {
-    "address-kind-ignored": lambda: chk_address_kind("BTC", 12345),
-}
+KNOWN_REPLAYS = {}
 KNOWN_REPLAYS.update(ARM.KNOWN_REPLAYS)
 
 
